@@ -105,18 +105,23 @@ type c01Case struct {
 	prefill int      // samples completed in set-up (10 => the next completion closes a window)
 	held    []int    // number of tokens pre-acquired for each thread
 	progs   []string // one per thread
+	fast    bool     // minimum RTT threshold above every RTT: successes are "too fast to be a sample"
 }
 
 func c01Scenario(cs c01Case) *mc.Scenario {
 	return &mc.Scenario{
 		Name:   "C01/" + cs.name,
-		Params: fmt.Sprintf("strategy=%s traj=%v prefill=%d held=%v progs=%v", cs.kind, cs.traj, cs.prefill, cs.held, cs.progs),
+		Params: fmt.Sprintf("strategy=%s traj=%v prefill=%d held=%v progs=%v below-rtt-threshold=%v", cs.kind, cs.traj, cs.prefill, cs.held, cs.progs, cs.fast),
 		Cfg:    vrt.Config{TickPerNow: 1000},
 		Body: func(x *mc.Exec) {
 			h := &hist{}
 			lim := &ScriptLimit{Traj: cs.traj}
 			strat := newStrategy(cs.kind, cs.traj[0], nil)
-			l := newDefaultLimiter(lim, strat, 1000, 1000, nil)
+			minRTT := int64(1)
+			if cs.fast {
+				minRTT = 1e15
+			}
+			l := newDefaultLimiterRTT(lim, strat, 1000, 1000, minRTT, nil)
 			ctx := vctx.Background()
 			// set-up (sequential, not part of the checked history)
 			for i := 0; i < cs.prefill; i++ {
@@ -352,6 +357,9 @@ func runC01(c *Ctx) {
 			{name: "G3-window-zero", kind: kind, traj: []int{2, 0}, prefill: 10, held: []int{1, 1, 0}, progs: []string{"d", "s", "AA"}},
 			{name: "G4-chained", kind: kind, traj: []int{1}, progs: []string{"AsA", "AsA"}},
 			{name: "G5-cancelled-context", kind: kind, traj: []int{2}, progs: []string{"XA", "XsA"}},
+			// completions faster than the minimum RTT threshold: no sample, but still exactly one unit back
+			{name: "G6-fast-success", kind: kind, traj: []int{1}, held: []int{1, 0, 0}, progs: []string{"s", "A", "A"}, fast: true},
+			{name: "G6-fast-chained", kind: kind, traj: []int{2}, held: []int{1, 0}, progs: []string{"sAA", "AsA"}, fast: true},
 		}
 		if c.Thorough() {
 			cases = append(cases,
